@@ -21,6 +21,7 @@ PROPERTY_MODULES = {
     "C19": ["contracts.c19_databox"],
     "C20": ["contracts.c20_copies"],
     "C04": ["contracts.c04_parser"],
+    "C14": ["contracts.c14_filters"],
 }
 
 EXTRACTION_DROPS = [
